@@ -39,6 +39,10 @@ type onode struct {
 	parent *onode
 	kids   map[string]*onode
 	data   []byte // 'f'
+	// oversize: the header size of the file exceeds the archive segment that
+	// holds it (a sparse file with more hole than data); the view refuses to
+	// open such a member (finding sparse-oversize-refused).
+	oversize bool
 	target string // 's': raw target; 'h': target name (root relative, raw)
 	// lexTarget is the symlink target as the view spells it: cleaned lexically
 	// against the directory part of the member's literal name.
@@ -265,21 +269,22 @@ func extract(ms []member) *otree {
 		case 'r':
 			switch {
 			case old == nil:
-				mk('f').data = m.Data
+				n := mk('f')
+				n.data, n.oversize = m.Data, m.HSize > m.Seg
 			case old.kind == 'f':
-				old.data = m.Data
+				old.data, old.oversize = m.Data, m.HSize > m.Seg
 			case old.kind == 'h':
 				// Replaces the link itself (it is bound at the end).
-				old.kind, old.data, old.target = 'f', m.Data, ""
+				old.kind, old.data, old.target, old.oversize = 'f', m.Data, "", m.HSize > m.Seg
 				t.other("file-over-hardlink")
 			case old.kind == 's':
 				t.other("file-over-symlink")
-				t.writeThrough(old, m.Data)
+				t.writeThrough(old, m.Data, m.HSize > m.Seg)
 			case old.kind == 'd':
 				t.nonWF("file-over-dir")
 			default:
 				t.other("file-over-special")
-				old.kind, old.data = 'f', m.Data
+				old.kind, old.data, old.oversize = 'f', m.Data, m.HSize > m.Seg
 			}
 		case 's':
 			if old != nil {
@@ -428,7 +433,7 @@ func (t *otree) lexCheck(n *onode) {
 // open(O_CREAT|O_TRUNC) semantics): the file the chain ends at is replaced;
 // if the last link dangles and the directory of its target exists, the file
 // is created there.
-func (t *otree) writeThrough(n *onode, data []byte) {
+func (t *otree) writeThrough(n *onode, data []byte, oversize bool) {
 	hops := 0
 	cur := n
 	var via *onode // the last link of the chain
@@ -463,7 +468,7 @@ func (t *otree) writeThrough(n *onode, data []byte) {
 				t.nonWF("file-over-dangling-symlink")
 				return
 			}
-			pd.kids[last] = &onode{kind: 'f', name: last, parent: pd, data: data}
+			pd.kids[last] = &onode{kind: 'f', name: last, parent: pd, data: data, oversize: oversize}
 			return
 		}
 		cur = nx
@@ -475,12 +480,39 @@ func (t *otree) writeThrough(n *onode, data []byte) {
 	}
 	switch cur.kind {
 	case 'f':
-		cur.data = data
+		cur.data, cur.oversize = data, oversize
 	case 'h':
-		cur.kind, cur.data, cur.target = 'f', data, ""
+		cur.kind, cur.data, cur.target, cur.oversize = 'f', data, "", oversize
 	default:
 		t.nonWF("file-over-symlink-to-" + string(cur.kind))
 	}
+}
+
+// oversized: reading n (a file or a bound hard link) means opening a member
+// larger than its segment.
+func (t *otree) oversized(n *onode) bool {
+	switch n.kind {
+	case 'f':
+		return n.oversize
+	case 'h':
+		if f := t.hardFinal[n]; f != nil && f.kind == 'f' {
+			return f.oversize
+		}
+	}
+	return false
+}
+
+// anyOversize: some file of the tree is oversized.
+func (t *otree) anyOversize(n *onode) bool {
+	if n.kind == 'f' && n.oversize {
+		return true
+	}
+	for _, k := range n.kids {
+		if t.anyOversize(k) {
+			return true
+		}
+	}
+	return false
 }
 
 func sortedKids(n *onode) []string {
